@@ -450,7 +450,7 @@ func (m *muxer) apiSessionsKick(uuid uuid.UUID) bool {
 	defer m.mutex.Unlock()
 
 	if m.cdnSession != nil && m.cdnSession.uuid == uuid {
-		m.cdnSession.close2(fmt.Errorf("kicked"))
+		m.closeSessionAsync(m.cdnSession)
 		m.cdnSession = nil
 		return true
 	}
@@ -460,8 +460,19 @@ func (m *muxer) apiSessionsKick(uuid uuid.UUID) bool {
 		return false
 	}
 
-	sx.close2(fmt.Errorf("kicked"))
 	delete(m.sessionsBySecret, sx.secret)
+	m.closeSessionAsync(sx)
 
 	return true
+}
+
+// closeSessionAsync closes a kicked session, that has already been detached from the muxer,
+// in a dedicated routine. This is called by the server routine, that must not wait for the path:
+// the path can be waiting for the path manager, that in turn can be waiting for the server.
+func (m *muxer) closeSessionAsync(sx *session) {
+	m.wg.Add(1)
+	go func() {
+		defer m.wg.Done()
+		sx.close2(fmt.Errorf("kicked"))
+	}()
 }
